@@ -121,6 +121,75 @@ def gen_world(args, scratch):
 
 
 # ------------------------------------------------------------------------------------------
+# C13: the final result check (check_results) on a large library, P ranks vs one rank
+# ------------------------------------------------------------------------------------------
+def recheck_world(args, scratch):
+    """A small library is generated by one rank; its rows that carry a parameter map are repeated until `M` rows carry one
+    (plus `plain` rows without), `wrong` of them are given the match and map of another row (so that the check has something
+    to split off); then check_results runs on P ranks and, on a copy of the same library, on one rank.  Oracle: every rank
+    terminates and the files are byte-identical to the one-rank files."""
+    os.makedirs(scratch, exist_ok=True)
+    runname, compl = args['runname'], int(args['compl'])
+    kw = dict(runname=runname, compl=compl)
+    if args.get('basis') is not None:
+        kw['basis'] = args['basis']
+    g = run_world(world_spec(dict(args, P=1, policy={'kind': 'lowest'}, script=None, plan=None, seed=0, rank_hashseeds=None), [['gen', kw]]), scratch)
+    if g['violation'] is not None:
+        return dict(violation=None, diverged=None, sig=None, skipped='fixture generation failed: %s' % g['violation']['sig'], P=int(args['P']), steps=0, ranks=[])
+    d = libdir(scratch, runname, compl)
+
+    def rd(name):
+        with open('%s/%s_%d.txt' % (d, name, compl)) as f:
+            return f.read().splitlines()
+    allf, inv, mt = rd('all_equations'), rd('inv_subs'), rd('matches')
+    mapped = [i for i in range(len(allf)) if inv[i].strip()]
+    plain = [i for i in range(len(allf)) if not inv[i].strip()]
+    if not mapped:
+        return dict(violation=None, diverged=None, sig=None, skipped='no function with a map', P=int(args['P']), steps=0, ranks=[])
+    rng = random.Random(int(args.get('lib_seed', 0)))
+    rows = [mapped[k % len(mapped)] for k in range(int(args['M']))] + [rng.choice(plain) for _ in range(int(args.get('plain', 0)) if plain else 0)]
+    rng.shuffle(rows)
+    A = [allf[i] for i in rows]
+    I = [inv[i] for i in rows]
+    Mt = [mt[i] for i in rows]
+    for _ in range(int(args.get('wrong', 0))):
+        a, b = rng.randrange(len(rows)), rng.randrange(len(rows))
+        if I[a].strip() and I[b].strip():
+            I[a], Mt[a] = I[b], Mt[b]
+    for name, lines in (('all_equations', A), ('inv_subs', I), ('matches', Mt)):
+        with open('%s/%s_%d.txt' % (d, name, compl), 'w') as f:
+            f.write(''.join(x + '\n' for x in lines))
+    keep = scratch + '/lib_before'
+    shutil.copytree(d, keep)
+    prog = [['check_results', dict(runname=runname, compl=compl)]]
+    res = run_world(world_spec(args, prog), scratch)
+    out = slim(res, keep_choices=bool(args.get('keep_choices', True)))
+    out['hashes'] = {f: h for f, h in file_hashes(d).items() if f.split('_%d' % compl)[0] in SOUND_FILES + ('all_equations',)}
+    out['probs'], out['sig'] = [], None
+    if res['violation'] is None and res['diverged'] is None:
+        shutil.rmtree(d)
+        shutil.copytree(keep, d)
+        r1 = run_world(world_spec(dict(args, P=1, policy={'kind': 'lowest'}, script=None, plan=None, rank_hashseeds=None), prog), scratch)
+        if r1['violation'] is not None:
+            out['probs'] = [['one-rank-run-failed', r1['violation']['sig']]]
+            out['sig'] = 'recheck:one-rank-run-failed'
+        else:
+            h1 = {f: h for f, h in file_hashes(d).items() if f in out['hashes']}
+            bad = sorted(f for f in set(h1) | set(out['hashes']) if h1.get(f) != out['hashes'].get(f))
+            if bad:
+                out['probs'] = [['differs-from-1-rank-check', bad]]
+                out['sig'] = 'recheck:differs-from-1-rank-check:' + bad[0]
+        try:
+            import re
+            m = re.findall(r'Need to change (\d+) functions', open(scratch + '/rank0.out').read())
+            out['n_unmerged'] = int(m[-1]) if m else None
+        except Exception:
+            out['n_unmerged'] = None
+    out['rows'] = len(rows)
+    return out
+
+
+# ------------------------------------------------------------------------------------------
 # C14 layer 1: the slices the stages actually use
 # ------------------------------------------------------------------------------------------
 def slices_world(args, scratch):
@@ -263,8 +332,7 @@ def fit_program(like, comp, stages, opts):
     prog = [['like', lk]]
     for st in stages:
         kw = dict(stage=st, comp=comp, like='L')
-        if st == 'test_all':
-            kw.update(opts.get('test_all') or {})
+        kw.update(opts.get(st) or {})
         prog.append(['fit', kw])
     return prog
 
